@@ -175,6 +175,225 @@ func (e *Enc) writesOfCall(cc *ssa.CallCommon, seen map[*ssa.Function]bool) (map
 	return out, true
 }
 
+// calleeNames collects the names (as used for contract lookup) of everything called from the given blocks,
+// transitively through callees that would be inlined. "?" stands for an unknown callee.
+func (e *Enc) calleeNames(fn *ssa.Function, body map[int]bool, out map[string]bool, seen map[*ssa.Function]bool) {
+	for _, b := range fn.Blocks {
+		if body != nil && !body[b.Index] {
+			continue
+		}
+		for _, ins := range b.Instrs {
+			ci, ok := ins.(ssa.CallInstruction)
+			if !ok {
+				continue
+			}
+			cc := ci.Common()
+			if cc.IsInvoke() {
+				out[ifaceMethodName(cc.Value.Type(), cc.Method)] = true
+				continue
+			}
+			var callee *ssa.Function
+			switch v := cc.Value.(type) {
+			case *ssa.Builtin:
+				continue
+			case *ssa.Function:
+				callee = v
+			case *ssa.MakeClosure:
+				callee = v.Fn.(*ssa.Function)
+			default:
+				// closure stored in a local: look for the MakeClosure feeding it; otherwise unknown
+				out["fntype:"+typeStr(cc.Value.Type())] = true
+				if ld, ok := cc.Value.(*ssa.UnOp); ok {
+					if g, ok := ld.X.(*ssa.Global); ok {
+						out["funcvar:"+qual(g.Pkg.Pkg)+"."+g.Name()] = true
+						continue
+					}
+				}
+				// anonymous functions of the enclosing function may be called through locals
+				for _, af := range fn.AnonFuncs {
+					if !seen[af] {
+						seen[af] = true
+						out[fnName(af)] = true
+						e.calleeNames(af, nil, out, seen)
+					}
+				}
+				continue
+			}
+			out[fnName(callee)] = true
+			if seen[callee] || len(callee.Blocks) == 0 || !e.P.inModule(callee) {
+				continue
+			}
+			seen[callee] = true
+			e.calleeNames(callee, nil, out, seen)
+		}
+	}
+}
+
+// topModset: expanded modifies clause of the function under verification (nil if it has no frame obligation).
+func (e *Enc) topModset(fr *Frame) map[string]bool {
+	top := topFrame(fr)
+	if top.spec == nil || (len(top.spec.Ensures) == 0 && len(top.spec.Modifies) == 0) {
+		return nil
+	}
+	mods, err := e.P.expandHeaps(top.spec.Modifies)
+	if err != nil {
+		return nil
+	}
+	out := map[string]bool{}
+	for _, m := range mods {
+		out[m] = true
+	}
+	return out
+}
+
+func (e *Enc) twoLevel(h string) bool {
+	hs := e.hsorts[h]
+	return hs != nil && hs.Kind == smt.KArray && hs.Idx.Kind == smt.KBV && hs.Idx.W == 64 && hs.Elem.Kind == smt.KArray
+}
+
+// frameCond: every object that existed at function entry has its entry content in heap h.
+func (e *Enc) frameCond(cur *smt.Term, h string) *smt.Term {
+	c := e.C
+	o := c.BoundVar("o", smt.BV(64))
+	return c.Forall([]*smt.Term{o}, c.Implies(c.Cmp("bvule", o, e.Alloc0), c.Eq(c.Select(cur, o), c.Select(e.initHeap(h), o))))
+}
+
+// isAccumulator: a slice-typed header phi all of whose in-loop incoming values are append(phi, ...) results.
+func (e *Enc) isAccumulator(phi *ssa.Phi, body map[int]bool) bool {
+	if _, ok := phi.Type().Underlying().(*types.Slice); !ok {
+		return false
+	}
+	b := phi.Block()
+	n := 0
+	for i, ed := range phi.Edges {
+		if !body[b.Preds[i].Index] {
+			continue
+		}
+		n++
+		call, ok := ed.(*ssa.Call)
+		if !ok {
+			return false
+		}
+		bi, ok := call.Call.Value.(*ssa.Builtin)
+		if !ok || bi.Name() != "append" || len(call.Call.Args) == 0 || call.Call.Args[0] != ssa.Value(phi) {
+			return false
+		}
+	}
+	return n > 0
+}
+
+type loopFrame struct {
+	heap   string
+	entry  *smt.Term   // heap value at loop entry
+	alloc  *smt.Term   // allocation counter at loop entry
+	except []*smt.Term // objects the loop may write
+}
+
+func (e *Enc) loopFrameCond(cur *smt.Term, lf loopFrame) *smt.Term {
+	c := e.C
+	o := c.BoundVar("o", smt.BV(64))
+	g := []*smt.Term{c.Cmp("bvule", o, lf.alloc), c.Ne(o, e.bv64(0))}
+	for _, x := range lf.except {
+		if x.IsLit() && x.Val.Sign() == 0 {
+			continue
+		}
+		g = append(g, c.Ne(o, x))
+	}
+	return c.Forall([]*smt.Term{o}, c.Implies(c.And(g...), c.Eq(c.Select(cur, o), c.Select(lf.entry, o))))
+}
+
+type outerObj struct {
+	obj   *smt.Term
+	heaps map[string]bool
+}
+
+// loopOuterObjects: objects of pointer / slice values that are defined outside the loop body and used inside it,
+// plus the loop-entry values of pointer / slice phis of the header, with the heaps their pointees live in.
+func (e *Enc) loopOuterObjects(fr *Frame, body map[int]bool) []outerObj {
+	var out []outerObj
+	seen := map[ssa.Value]bool{}
+	add := func(v ssa.Value) {
+		if v == nil || seen[v] {
+			return
+		}
+		seen[v] = true
+		var elem types.Type
+		isSlice := false
+		switch u := v.Type().Underlying().(type) {
+		case *types.Pointer:
+			elem = u.Elem()
+		case *types.Slice:
+			elem = u.Elem()
+			isSlice = true
+		default:
+			return
+		}
+		val, ok := fr.Vals[v]
+		if !ok {
+			switch v.(type) {
+			case *ssa.Global, *ssa.Const:
+				val = e.val(fr, v)
+			default:
+				return
+			}
+		}
+		var obj *smt.Term
+		switch {
+		case val.Loc != nil:
+			obj = e.ptrObj(val.Loc.Base)
+		case val.T == nil:
+			return
+		case isSlice:
+			obj = e.slObj(val.T)
+		default:
+			obj = e.ptrObj(val.T)
+		}
+		hs := map[string]bool{}
+		for h := range e.heapsOfType(elem) {
+			hs[h] = true
+		}
+		if val.Loc != nil && val.Loc.Root != nil {
+			for h := range e.heapsOfType(val.Loc.Root) {
+				hs[h] = true
+			}
+		}
+		// big.Int ghosts and map heaps are keyed by object too
+		if isOpaqueStructT(elem) {
+			hs["ghost:bigabs"], hs["ghost:bigneg"], hs["ghost:bigwide"] = true, true, true
+		}
+		out = append(out, outerObj{obj: obj, heaps: hs})
+	}
+	definedInside := func(v ssa.Value) bool {
+		if ins, ok := v.(ssa.Instruction); ok && ins.Block() != nil && ins.Parent() == fr.Fn {
+			return body[ins.Block().Index]
+		}
+		return false
+	}
+	for _, b := range fr.Fn.Blocks {
+		if !body[b.Index] {
+			continue
+		}
+		for _, ins := range b.Instrs {
+			if phi, ok := ins.(*ssa.Phi); ok {
+				// loop-carried values: the entry value is already bound to the phi at this point (mergePreds)
+				for i, ed := range phi.Edges {
+					if !body[b.Preds[i].Index] {
+						add(ed)
+					}
+				}
+				continue
+			}
+			for _, op := range ins.Operands(nil) {
+				if *op == nil || definedInside(*op) {
+					continue
+				}
+				add(*op)
+			}
+		}
+	}
+	return out
+}
+
 type loopCtx struct {
 	hdr   *loopHdr
 	phis  []*ssa.Phi
@@ -230,7 +449,12 @@ func (e *Enc) enterLoop(fr *Frame, b *ssa.BasicBlock, hdr *loopHdr, in *State, b
 		}
 	}
 	// 1. invariants hold on entry
+	if e.loopAlloc == nil {
+		e.loopAlloc = map[*ssa.BasicBlock]*smt.Term{}
+	}
+	e.loopAlloc[b] = in.Alloc
 	env := e.loopEnv(fr, in, phiVals)
+	env.loopAlloc = in.Alloc
 	for _, inv := range invs {
 		t, err := env.EvalBool(inv.Expr)
 		if err != nil {
@@ -254,7 +478,18 @@ func (e *Enc) enterLoop(fr *Frame, b *ssa.BasicBlock, hdr *loopHdr, in *State, b
 	if all {
 		unsupported("loop %d in %s calls something with an unknown write set; give 'loop %d modifies ...'", ord, fnName(fr.Fn), ord)
 	}
+	// Implicit loop-frame invariant (guessed here, checked on every back edge, so the guess cannot make the
+	// proof unsound): in every heap the loop writes, an object that existed at loop entry keeps its loop-entry
+	// content unless it is one of the objects the body can name from outside the loop (pointers / slices defined
+	// before the loop and used inside it, and the entry values of loop-carried pointers / slices).
+	var framed []loopFrame
+	cands := e.loopOuterObjects(fr, hdr.body)
+	var hnames []string
 	for h := range writes {
+		hnames = append(hnames, h)
+	}
+	sort.Strings(hnames)
+	for _, h := range hnames {
 		if strings.HasPrefix(h, "lghost:") {
 			continue
 		}
@@ -265,15 +500,62 @@ func (e *Enc) enterLoop(fr *Frame, b *ssa.BasicBlock, hdr *loopHdr, in *State, b
 				continue
 			}
 		}
+		entry := e.heap(in, h, e.hsorts[h])
 		e.havocHeap(in, h)
+		if h != "ghost:work" && e.twoLevel(h) {
+			lf := loopFrame{heap: h, entry: entry, alloc: in.Alloc}
+			for _, cd := range cands {
+				if cd.heaps[h] {
+					lf.except = append(lf.except, cd.obj)
+				}
+			}
+			framed = append(framed, lf)
+			e.assume(in, e.loopFrameCond(in.Heaps[h], lf))
+		}
 	}
-	// local ghosts of the top frame may be assigned by oncall hooks inside the loop: havoc them all
-	if top := topFrame(fr); top.spec != nil {
+	if e.loopFramed == nil {
+		e.loopFramed = map[*ssa.BasicBlock][]loopFrame{}
+	}
+	e.loopFramed[b] = framed
+	// local ghosts of the top frame may be assigned by oncall hooks inside the loop: havoc those whose hook
+	// pattern matches a callee reachable from the loop body
+	if top := topFrame(fr); top.spec != nil && len(top.spec.Ghosts) > 0 {
+		names := map[string]bool{}
+		e.calleeNames(fr.Fn, hdr.body, names, map[*ssa.Function]bool{fr.Fn: true})
+		assigned := map[string]bool{}
+		for _, oc := range top.spec.OnCalls {
+			hit := false
+			for n := range names {
+				if n == "?" || matchCallee(oc.Callee, n) {
+					hit = true
+					break
+				}
+			}
+			if hit {
+				for _, as := range oc.Assigns {
+					assigned[as.Name] = true
+				}
+			}
+		}
 		for _, g := range top.spec.Ghosts {
-			e.havocHeap(in, top.ghostName(g.Name))
+			if assigned[g.Name] {
+				e.havocHeap(in, top.ghostName(g.Name))
+			}
 		}
 	}
 	e.bumpAlloc(in)
+	entryVals := map[*ssa.Phi]*smt.Term{}
+	for _, phi := range phis {
+		if v := fr.Vals[phi]; v != nil && v.T != nil {
+			entryVals[phi] = v.T
+		}
+	}
+	if e.phiEntry == nil {
+		e.phiEntry = map[*ssa.Phi]*smt.Term{}
+	}
+	for k, v := range entryVals {
+		e.phiEntry[k] = v
+	}
 	for _, phi := range phis {
 		s := sortOf(phi.Type())
 		nv := c.Fresh("loop:"+phi.Comment, s)
@@ -284,6 +566,13 @@ func (e *Enc) enterLoop(fr *Frame, b *ssa.BasicBlock, hdr *loopHdr, in *State, b
 		if phi.Comment != "" {
 			phiVals[phi.Comment] = &SVal{T: nv, Typ: phi.Type()}
 		}
+		if e.isAccumulator(phi, hdr.body) {
+			// built-in invariant of an append-accumulator: the slice still lives in the object it had at loop
+			// entry, or in one allocated during the loop (append either writes in place or allocates)
+			if ev := entryVals[phi]; ev != nil {
+				e.assume(in, c.Or(c.Eq(e.slObj(nv), e.slObj(ev)), c.Cmp("bvugt", e.slObj(nv), e.loopAlloc[b])))
+			}
+		}
 		if phi.Comment == "rangeindex" && s.Kind == smt.KBV {
 			// built-in invariant of go/ssa's lowering of "range" over a slice: index >= -1 (checked on the back edge)
 			e.assume(in, c.And(c.Cmp("bvsge", nv, c.LitI(-1, s.W)), c.Cmp("bvslt", nv, c.LitI(1<<40, s.W))))
@@ -291,6 +580,7 @@ func (e *Enc) enterLoop(fr *Frame, b *ssa.BasicBlock, hdr *loopHdr, in *State, b
 	}
 	// 3. assume invariants
 	env = e.loopEnv(fr, in, phiVals)
+	env.loopAlloc = e.loopAlloc[b]
 	for _, inv := range invs {
 		t, err := env.EvalBool(inv.Expr)
 		if err != nil {
@@ -324,15 +614,28 @@ func (e *Enc) checkBackEdge(fr *Frame, src, header *ssa.BasicBlock, cur *State, 
 		if v.T != nil && phi.Comment != "" {
 			phiVals[phi.Comment] = &SVal{T: v.T, Typ: phi.Type()}
 		}
+		if e.isAccumulator(phi, hdr.body) && v.T != nil && e.phiEntry[phi] != nil {
+			e.oblige(fr, st, "invariant-preserved", fmt.Sprintf("loop%d.auto-accumulator", ord), "append-accumulator "+phi.Comment+" stays in its entry object or one allocated during the loop", src.Instrs[len(src.Instrs)-1].Pos(),
+				e.C.Or(e.C.Eq(e.slObj(v.T), e.slObj(e.phiEntry[phi])), e.C.Cmp("bvugt", e.slObj(v.T), e.loopAlloc[header])), e.Props)
+		}
 		if phi.Comment == "rangeindex" && v.T != nil && v.T.Sort.Kind == smt.KBV {
 			e.oblige(fr, st, "invariant-preserved", fmt.Sprintf("loop%d.auto-rangeindex", ord), "range index stays >= -1", src.Instrs[len(src.Instrs)-1].Pos(),
 				e.C.And(e.C.Cmp("bvsge", v.T, e.C.LitI(-1, v.T.Sort.W)), e.C.Cmp("bvslt", v.T, e.C.LitI(1<<40, v.T.Sort.W))), e.Props)
 		}
 	}
+	for _, lf := range e.loopFramed[header] {
+		cur, ok := st.Heaps[lf.heap]
+		if !ok {
+			continue
+		}
+		e.oblige(fr, st, "loop-frame", fmt.Sprintf("loop%d.%s", ord, lf.heap), "loop body leaves heap "+lf.heap+" unchanged on every object that existed at loop entry and is not named by the loop from outside",
+			src.Instrs[len(src.Instrs)-1].Pos(), e.loopFrameCond(cur, lf), e.Props)
+	}
 	if len(invs) == 0 {
 		return
 	}
 	env := e.loopEnv(fr, st, phiVals)
+	env.loopAlloc = e.loopAlloc[header]
 	for _, inv := range invs {
 		t, err := env.EvalBool(inv.Expr)
 		if err != nil {
@@ -415,6 +718,30 @@ func VerifyFunc(p *Program, fn *ssa.Function) (res *FuncResult) {
 			reqs = append(reqs, t)
 			e.assume(st, t)
 		}
+		for _, wd := range spec.Witness {
+			sv, err := env.evalAny(wd.Expr)
+			if err != nil {
+				unsupported("witness %s: %v", wd.Name, err)
+			}
+			if wd.Bytes == 0 {
+				e.addWitness(wd.Name, sv.T)
+				continue
+			}
+			if sv.Typ == nil {
+				unsupported("witness-bytes %s: not a byte slice", wd.Name)
+			}
+			if _, ok := sv.Typ.Underlying().(*types.Slice); !ok {
+				unsupported("witness-bytes %s: not a byte slice", wd.Name)
+			}
+			ln := e.slLen(sv.T)
+			e.addWitness(wd.Name+".len", ln)
+			e.addWitness(wd.Name+".nil", c.Eq(e.slObj(sv.T), e.bv64(0)))
+			e.Shaping = append(e.Shaping, c.Cmp("bvule", ln, e.bv64(uint64(wd.Bytes))))
+			arr := e.byteRegion(st, e.slObj(sv.T))
+			for i := 0; i < wd.Bytes; i++ {
+				e.addWitness(fmt.Sprintf("%s[%d]", wd.Name, i), c.Select(arr, c.BVOp("bvadd", e.slOff(sv.T), e.bv64(uint64(i)))))
+			}
+		}
 		// vacuity: the preconditions (with type invariants) are satisfiable
 		res.ReqSat = &Obligation{ID: name + "/vacuity:requires-satisfiable", Kind: "vacuity", Func: name, Guard: st.Reach, Cond: c.False(),
 			Text: "preconditions are satisfiable (expected sat)"}
@@ -478,7 +805,8 @@ func VerifyFunc(p *Program, fn *ssa.Function) (res *FuncResult) {
 				hs := e.hsorts[h]
 				if h == "ghost:objtype" || h == "ghost:bigabs" || h == "ghost:bigneg" || h == "ghost:bigwide" || (hs.Kind == smt.KArray && hs.Idx.Kind == smt.KBV && hs.Idx.W == 64 && hs.Elem.Kind == smt.KArray) {
 					o := c.BoundVar("o", smt.BV(64))
-					cond = c.Forall([]*smt.Term{o}, c.Implies(c.Cmp("bvule", o, entry.Alloc), c.Eq(c.Select(cur, o), c.Select(init, o))))
+					// object 0 is nil: nothing lives there
+					cond = c.Forall([]*smt.Term{o}, c.Implies(c.And(c.Ne(o, e.bv64(0)), c.Cmp("bvule", o, entry.Alloc)), c.Eq(c.Select(cur, o), c.Select(init, o))))
 				} else {
 					cond = c.Eq(cur, init)
 				}
